@@ -4,7 +4,7 @@ import json
 import os
 import shutil
 
-from vcommon import (VERIF, Inconclusive, build_harness, found_dir, parse_line, properties, report_failure,
+from vcommon import (VERIF, Inconclusive, build_harness, build_harness_asan, found_dir, parse_line, properties, report_failure,
                      run_many, write_evidence)
 
 # ----------------------------------------------------------------------------------------------
@@ -185,6 +185,114 @@ def check_history(ctx, features=(), level="exploration"):
     write_evidence(ctx, level, hist_coverage(ctx, agg, nfiles, rule_of(ctx.prop), bins), HIST_ASSUMPTIONS)
 
 
-HANDLERS = {}
+HIST_RULES["C17"] = "histories (harness built with feature events) with both creation paths incl. refused create_within_capacity, all four destroy key kinds at both levels, ecs_iter_destroy!, destroys of stale handles, per-archetype and world-level clear_events at arbitrary points, clones; after every step the per-archetype and world-level event iterators are compared (as multisets) with the model's logs and size_hint is checked before every next(); non-trivial = an observation with >= 2 archetypes with non-empty and >= 1 with empty logs, plus a destroy through a dynamic key or ecs_iter_destroy!, plus a clear; distinct = hash of the decoded op list"
+
+
+C14_RULE = ("generated raw (key, generation) values from an edge-biased strategy (all declared archetype ids of WMix {0,1,7,8,200,255} / WOne plus arbitrary id bytes; positions 0, 1, 2^24-1, random; generations 0, 1, 2, u32::MAX, random), pairs (equal, one bit flipped, differing only in id byte / generation / position), sets put into HashSet/HashMap, and direct handles built for every archetype at edge indices and versions; checked against the conversion / Eq / Hash laws; plus histories checking that every created handle carries its creator's ARCHETYPE_ID; "
+            "non-trivial = undeclared id byte, or position/generation at an edge, or a pair differing in exactly one field (or one bit), or a set of >= 2 handles; distinct = the generated value itself")
+
+
+def check_c14(ctx):
+    bins = {"chk": build_harness("chk"), "rel": build_harness("rel")}
+    files = sorted(glob.glob(os.path.join(VERIF, "replays", "C14", "*.conv")))
+    if ctx.replay and ctx.replay.endswith(".conv"):
+        files.append(ctx.replay)
+    jobs = [((f, n), [b, "conv-replay", f]) for f in files for n, b in bins.items()]
+    for (f, n), (rc, out) in sorted(run_many(jobs, 300).items()):
+        if rc == 1:
+            for line in out.splitlines():
+                if line.startswith("FAIL "):
+                    d = parse_line(line)
+                    report_failure(ctx, d.get("sig", "?"), f, "[%s] %s" % (n, d.get("msg", "")))
+        elif rc != 0:
+            report_failure(ctx, "crash", f, "[%s] conv-replay died with status %s: %s" % (n, rc, out[-300:]))
+    nfiles, _ = run_replays(ctx, bins, [ctx.replay] if ctx.replay and ctx.replay.endswith(".ops") else [])
+    if ctx.replay:
+        write_evidence(ctx, "exploration", {"evaluations": len(files) + nfiles, "distinct_nontrivial": 2, "rule": "replay of saved inputs only", "samples": [open(ctx.replay).read()]}, HIST_ASSUMPTIONS)
+        return
+    shards, cases = (8, 20000) if ctx.tier == "quick" else (16, 1000000)
+    work = os.path.join(VERIF, ".work", "C14-%d" % os.getpid())
+    os.makedirs(work, exist_ok=True)
+    jobs = []
+    for name, b in sorted(bins.items()):
+        for s in range(shards):
+            world = "WOne" if s % 4 == 3 else "WMix"
+            seed = ctx.sub_seed("conv", name, s)
+            base = os.path.join(work, "%s-%d" % (name, s))
+            jobs.append(((name, s, world, seed), [b, "conv", "--world", world, "--cases", str(cases), "--seed", str(seed), "--out", base + ".json", "--fail-out", base + ".conv"]))
+    res = run_many(jobs, 3600)
+    total = 0
+    hashes = set()
+    kinds = {}
+    samples = []
+    try:
+        for key in sorted(res):
+            name, s, world, seed = key
+            rc, out = res[key]
+            base = os.path.join(work, "%s-%d" % (name, s))
+            if rc is None:
+                raise Inconclusive("conv shard timed out")
+            if rc not in (0, 1):
+                raise Inconclusive("conv shard died with status %s: %s" % (rc, out[-300:]))
+            st = json.load(open(base + ".json"))
+            total += st["evaluations"]
+            hashes.update(st["nontrivial_hashes"])
+            for k, v in st["labels"].items():
+                kinds[k] = kinds.get(k, 0) + v
+            if len(samples) < 8:
+                samples.extend(st["samples"][:2])
+            if rc == 1:
+                for line in out.splitlines():
+                    if line.startswith("FAIL "):
+                        d = parse_line(line)
+                        dst = os.path.join(found_dir("C14"), "conversion-law-%s-%d.conv" % (name, seed))
+                        shutil.copyfile(base + ".conv", dst)
+                        report_failure(ctx, d.get("sig", "?"), dst, "[%s, %s] %s" % (name, world, d.get("msg", "")))
+    finally:
+        shutil.rmtree(work, ignore_errors=True)
+    # history part: created handles carry their creator's ARCHETYPE_ID
+    hb = (4, 500, 120, 900) if ctx.tier == "quick" else (16, 5000, 400, 7200)
+    agg = hist_search(ctx, bins, budget=hb)
+    cov = {
+        "evaluations": total + agg["evaluations"],
+        "distinct_nontrivial": len(hashes) + len(agg["hashes"]),
+        "rule": C14_RULE,
+        "samples": samples + agg["samples"][:1],
+        "exhaustive": False,
+        "conversion_cases": total,
+        "conversion_case_kinds": kinds,
+        "history_cases": agg["evaluations"],
+        "history_ops": agg["ops_run"],
+        "collateral": agg["collateral"],
+        "builds": sorted(bins.keys()),
+        "regression_replays": len(files) + nfiles,
+    }
+    write_evidence(ctx, "exploration", cov, HIST_ASSUMPTIONS + ["direct handles are built through the public-but-hidden __internal::new_entity_direct with the version of a real archetype (set through the preset hook); their fields are observed through Debug"])
+
+
+HIST_RULES["C03"] = "world states produced by generated histories, interleaved with forged-handle probes constructed from the live state for the boundary classes (free slot with its current generation, live slot with neighbouring generation, indices len-1/len/capacity-1/capacity/capacity+1/2^24-1, undeclared archetype id, live handle of another archetype through from_any_unchecked, handle or direct handle of another world lineage, direct handles built with __internal::new_entity_direct at indices 0/len-1/len/capacity/2^24-1 with the version of this archetype, another archetype or another world, values bit-identical to a live handle, random 64-bit values) and passed to every lookup path, to destroy at both levels and to the mutable paths, with dynamic, unchecked-typed and typed keys; run on builds with debug assertions on, off, and off under AddressSanitizer; non-trivial = the case contains a probe in a dangerous class (free slot with matching generation, index == capacity, direct index == len with matching version, cross-world direct handle with matching version, undeclared archetype id); distinct = hash of the decoded op list"
+
+
+def check_c03(ctx):
+    bins = {"chk": build_harness("chk"), "rel": build_harness("rel"), "asan": build_harness_asan()}
+    extra = [ctx.replay] if ctx.replay else []
+    nfiles, _ = run_replays(ctx, bins, extra)
+    if ctx.replay:
+        write_evidence(ctx, "exploration", {"evaluations": nfiles, "distinct_nontrivial": 2, "rule": "replay of saved inputs only", "samples": [open(ctx.replay).read()]}, HIST_ASSUMPTIONS)
+        return
+    budget = (5, 1200, 120, 1200) if ctx.tier == "quick" else (16, 12000, 400, 7200)
+    agg = hist_search(ctx, bins, budget=budget)
+    cov = hist_coverage(ctx, agg, nfiles, rule_of("C03"), bins)
+    cov["sanitizers"] = ["AddressSanitizer (nightly -Zsanitizer=address, release profile, debug assertions off) on the 'asan' build"]
+    write_evidence(ctx, "exploration", cov, HIST_ASSUMPTIONS + [
+        "allowed clean panics on forged probes: 'invalid entity handle', 'invalid entity type', 'invalid entity conversion', debug_assert in from_any_unchecked (DESIGN.md soundness decision 3)",
+        "the state after a forged probe is compared with the state before it (full probe suite, representation invariant)"])
+
+
+def check_c17(ctx):
+    check_history(ctx, features=("events",))
+
+
+HANDLERS = {"C17": check_c17, "C14": check_c14, "C03": check_c03}
 for _p in ("C01", "C02", "C04", "C06", "C07", "C08", "C09", "C12", "C13"):
     HANDLERS[_p] = check_history
